@@ -380,6 +380,65 @@ func c11(c *core.Ctx) {
 		c.Note("Account.SetVotes has a sign guard of its own: %v (Account.SetBalance has one — C05.4)", has)
 	})
 
+	c.Clause("C11.5", "the balance a vote transaction weighs is the sender's balance before this transaction bought gas: the end-of-block pass starts from the block-start balance, so the two must not be separated by the gas purchase")
+	c.Run("vote-weight-balance", func() {
+		const tr = "chain/transaction"
+		ap := c.Fn(tr + ".TxProcessor.applyTx")
+		ht := core.CallsIn(ap, c.Method(tr+".TxProcessor", "handleTx"))
+		gb := c.Method("chain/types.AccountAccessor", "GetBalance")
+		buy := []*types.Func{c.Method(tr+".TxProcessor", "buyAndPayIntrinsicGas"), c.Method(tr+".TxProcessor", "buyGas")}
+		c.Exactly("applyTx/handleTx-calls", len(ht), 1)
+		if len(ht) != 1 {
+			return
+		}
+		// the *big.Int argument of handleTx that comes from a GetBalance call
+		htFn := c.Fn(tr + ".TxProcessor.handleTx")
+		var balArg ssa.Value
+		var balParam *ssa.Parameter
+		for i, a := range ht[0].Common().Args {
+			if core.SliceHasCall(core.Slice(a), gb) && i < len(htFn.Params) {
+				if _, isPtr := a.Type().(*types.Pointer); isPtr && namedPtr(a.Type()) == "Int" {
+					balArg, balParam = a, htFn.Params[i]
+				}
+			}
+		}
+		if !c.Check("applyTx:handleTx(initial balance from GetBalance)", "value-flow", balArg != nil, ht[0].Pos(), "handleTx is given the sender's balance read by applyTx") {
+			return
+		}
+		ok := false
+		for v := range core.Slice(balArg) {
+			call, isCall := v.(*ssa.Call)
+			if !isCall || !core.SameFamily(core.CalleeObj(call), gb) {
+				continue
+			}
+			before := true
+			for _, b := range core.CallsIn(ap, buy...) {
+				if !core.Dominates(call, b) {
+					before = false
+				}
+			}
+			if before && len(core.CallsIn(ap, buy...)) >= 1 {
+				ok = true
+			}
+		}
+		c.Check("applyTx:initial-balance-read≺buyGas", "order", ok, ht[0].Pos(), "the balance handed to handleTx is read before the gas purchase debits the sender")
+		// and that value (not a fresh read) is what the vote transaction weighs
+		cv := core.CallsIn(htFn, c.Method(tr+".CandidateVoteEnv", "CallVoteTx"))
+		okv := len(cv) >= 1
+		for _, g := range cv {
+			found := false
+			for _, a := range g.Common().Args {
+				if balParam != nil && core.Slice(a)[balParam] {
+					found = true
+				}
+			}
+			if !found {
+				okv = false
+			}
+		}
+		c.Check("handleTx:CallVoteTx(initial balance)", "value-flow", okv, htFn.Pos(), "the vote transaction is weighed with the balance handed in by applyTx")
+	})
+
 	c.NotDecidedf("the tally equation itself is NOT decided: that a candidate's votes equal deposit/DepositExchangeRate + Σ balance(voter)/VoteExchangeRate over its voters (sums over runtime balances); D19 shows a reachable history where it fails")
 	c.NotDecidedf("clause 4 only says whether a negative count is prevented, not whether counts are right; clause 1 says the adjustment runs after every balance writer, not that its arithmetic (per-account floor division of old/new balance) matches the per-tx vote moves")
 	c.NotDecidedf("writes to the vote counter that bypass the accessor interface inside package account or types (decoders, Copy), and candidates' Top-list ranking (C10)")
